@@ -210,7 +210,7 @@ fn comp_strategy() -> BoxedStrategy<CompCase> {
     (
         prop_oneof![Just(Be::FftRef), Just(Be::FftAvx), Just(Be::NttRef), Just(Be::NttAvx)],
         0u8..2,
-        0u8..9,
+        0u8..12,
         0u8..4,
         1u8..=10,
         prop::collection::vec((2u8..=8, 12u8..=44, 4u8..=12, any::<u8>()), 3..6),
